@@ -215,13 +215,43 @@ def compare_seq(beh, job, rec):
 
 
 # ----------------------------------------------------------------------------------------------
+class _Part:
+    """private evidence counters + scratch dir for one partition of a parallel leg-C run"""
+    def __init__(self, ctx, i):
+        self.work = os.path.join(ctx.work, "part%d" % i)
+        os.makedirs(self.work, exist_ok=True)
+        self.cov = {"states": 0, "transitions": 0, "traces_validated_against_impl": 0}
+        self.seed, self.tier = ctx.seed, ctx.tier
+
+
+def validate_traces_parallel(ctx, cfg, traces, label, parts=4, max_reject=4):
+    """vlib.validate_traces over `parts` partitions at once (one single-worker TLC each)"""
+    n = len(traces)
+    parts = max(1, min(parts, n // 40 + 1))
+    bounds = [(i * n // parts, (i + 1) * n // parts) for i in range(parts)]
+    shims = [_Part(ctx, i) for i in range(parts)]
+    with concurrent.futures.ThreadPoolExecutor(max_workers=parts) as ex:
+        futs = [ex.submit(vlib.validate_traces, shims[i], TRACE, cfg, traces[a:b], label="%s [part %d]" % (label, i),
+                          max_reject=max_reject) for i, (a, b) in enumerate(bounds)]
+        acc, rej = 0, []
+        for i, f in enumerate(futs):
+            a_, r_ = f.result()
+            acc += a_
+            rej += [(bounds[i][0] + idx, info) for idx, info in r_]
+    for sh in shims:
+        for k, v in sh.cov.items():
+            ctx.cov[k] = ctx.cov.get(k, 0) + v
+    log("leg C %s: %d traces accepted, %d rejected (%d partitions)" % (label, acc, len(rej), parts))
+    return acc, rej[:max_reject]
+
+
 def validate(ctx, kind, recs, cfg, label):
     """leg C over the records of one kind; -> rejected indices"""
     traces = [r["events"] for r in recs]
     for t in traces:
         if t[0]["ev"] != "Reset" or (kind != "cap" and t[0]["capmode"] == "exact" and t[0]["size"] < NKEYS):
             raise vlib.Infra("harness bug: trace does not start with a Reset of capacity >= %d: %s" % (NKEYS, t[0]))
-    acc, rej = vlib.validate_traces(ctx, TRACE, cfg, traces, label=label, max_reject=4)
+    acc, rej = validate_traces_parallel(ctx, cfg, traces, label)
     for idx, info in rej:
         r = recs[idx]
         j = r["job"]
@@ -364,7 +394,7 @@ def run(ctx):
 
     # ---- driver -------------------------------------------------------------------------------
     binary = vlib.go_build(ctx, "drv_cachestore", race=True)
-    hjobs = hist_jobs(rng, 5000 if T else 700)
+    hjobs = hist_jobs(rng, 5000 if T else 500)
     cjobs = cap_jobs()
     t0 = time.time()
     recs, stderr, rc = run_drv(ctx, binary, {"hist": hjobs, "seq": sjobs, "cap": cjobs, "workers": 4}, timeout=1500)
